@@ -11,30 +11,39 @@ FULL STATEMENT (false for the current code):
   theorem answer_valid_full (c ts nextMid hasLocal role offer a) :
       answer c ts nextMid hasLocal role (some offer) = .ok a → validAnswer offer a = true
 Witnesses of its negation (each replayed on the implementation and recorded as a known finding):
-  `first_answer_ignores_offer_codecs`      — codecs clause, every first negotiation
+  `first_answer_ignores_offer_codecs`      — codecs clause: no common audio codec → the local list is answered
+                                             (video: the local list always)
   `answer_clears_mids_without_bundle`      — mids clause, ≥ 2 sections and no BUNDLE group
   `legacy_sip_answer_drops_offered_mids`   — mids clause, LegacySip compatibility mode
   `midless_offer_leaks_extmap_across_sections` — extension-id clause: the remote section is looked up
                                              by `mid == ""`, i.e. the FIRST mid-less section
   `image_answer_format_not_offered`        — `m=image … udptl t38` answered with format `98`
   `sticky_role_answers_offerers_own_role`  — setup clause on a re-offer that changes the DTLS role
-What is proved of `answer` is stated clause by clause: for ALL inputs `answer_count`,
-`answer_setup_ok(_desc)`, `answer_setup_complements`, `answer_direction_ok`, `answer_mux_ok(_desc)`,
-`answer_bundle_ok`, `answer_extmap_ok`, `answer_rtx_ok`, and for the re-negotiation audio path
-`answer_audio_reinvite_pts_offered`; under named, decidable, satisfiable hypotheses
-`answer_direction_ok_desc` (`DirSynced`), `answer_aligned_partial` (all mids present, `KindSynced`,
-mids not cleared), their conjunction `answer_valid_core_partial`, and `answer_valid_partial`:
-`validAnswer offer a` in full under those hypotheses plus `RoleFits`, `GroupListsMids` and
-`SelectionWithinOffer` — the last one ("what the local configuration selects lies within the offered
-section": payload types, RTX associations, extension ids) is exactly what the code does NOT ensure
-(witnesses above); it is a hypothesis, not something proved about the code.
+  `session_level_setup_is_not_read`        — setup clause, `a=setup` at session level only
+  `sections_with_differing_setup_get_one_role` — setup clause, sections offering different roles
+  `partial_bundle_group_answered_in_full`  — BUNDLE clause: a section outside the offered group is bundled
+  (`offered_payload_type_rebound` — not a clause of the property text: an offered NUMBER bound to another codec)
+What is proved of `answer` is stated clause by clause: for ALL inputs `answer_count`, `answer_kinds_ok`
+(full: every offer, every state — `kind_synced`), `answer_setup_ok(_desc)`, `answer_setup_complements` (about
+`RtcModel.Jsep.roleOfSetup`, the role derivation the C09 driver compares with the code),
+`answer_direction_ok`, `answer_mux_ok(_desc)`, `answer_bundle_ok`, `answer_extmap_ok`,
+`answer_extmap_ids_offered`, `answer_rtx_ok`, `answer_extmap_nodup`; RELATIVE TO THE ANSWERED SECTION for
+offers with pairwise different mids `answer_rtx_ok_distinct`, `answer_ext_ok_distinct` (ids offered AND no
+duplicates); the audio intersection path `answer_audio_reinvite_pts_offered` (since the round-2 fix taken on
+first negotiations too); under named, decidable, satisfiable hypotheses `answer_direction_ok_desc`
+(`DirSynced`), `answer_aligned_partial`, `answer_valid_core_partial`, and `answer_valid_partial`:
+`validAnswer offer a` in full, where the RTX / extension / setup clauses are derived and the only
+hypothesis restating a clause is `PtsWithinOffer` — what the code does NOT ensure (witnesses above).
 
-SDP text: `parse_print` (line level, decidable `WF`), `parse_print_structural` (structural `WF'`),
-`norm_idem`, `parse_print_exact`, `parse_text_print` (text level), and the character-level
-`attr_text_roundtrip`, `decimal_roundtrip`, `origin_roundtrip`, `timing_roundtrip`, `mline_roundtrip`.
+SDP text: see the block comment before `round_trip_partial` — the literal round-trip clause is FALSE
+(`round_trip_reorders_attributes`, `parsed_description_need_not_round_trip`); proved: `round_trip_partial`,
+`parse_print` (= `norm d`), `norm_only_partitions`, `second_trip_exact`, `parse_print_structural`,
+`parse_text_print` (text level), and the character-level `attr_text_roundtrip`, `decimal_roundtrip`,
+`origin_roundtrip`, `timing_roundtrip`, `mline_roundtrip`.
 -/
 import RtcModel.Lemmas.Answer
 import RtcModel.Lemmas.SdpLines
+import RtcModel.Jsep
 
 namespace RtcModel.Theorems.C08
 open RtcModel.Answer RtcModel.SdpLines RtcModel.Text
@@ -107,21 +116,16 @@ theorem answer_setup_ok (c : Cfg) (t : TrxView) (remote : List Media) (hasLocal 
       | some b => cases b <;> simp [attr]
     · cases h
 
-/-- the role `set_remote_description` derives from the first `a=setup` it finds (`is_client`) -/
-def roleFromSetup (v : Str) : Bool :=
-  if v = "active".toList then false
-  else if v = "passive".toList then true
-  else if v = "actpass".toList then false
-  else true
-
 def setupValue (role : Option Bool) : Str :=
   match role with | some true => "active".toList | some false => "passive".toList | none => "active".toList
 
-/-- **answer_setup_complements** — when the role was derived from this offer (first negotiation), the
-answered setup complements an `active` / `passive` offer and picks a side for `actpass`. -/
+/-- **answer_setup_complements** — when the role was derived from this offer (first negotiation) by
+`RtcModel.Jsep.roleOfSetup` — the function of the C09 model, compared with `set_remote_description`'s role
+derivation by the C09 driver — the answered setup complements an `active` / `passive` offer and picks a
+side for `actpass` . -/
 theorem answer_setup_complements (v : Str) :
-    setupCompatible (some v) (setupValue (some (roleFromSetup v))) = true := by
-  unfold roleFromSetup
+    setupCompatible (some v) (setupValue (some (RtcModel.Jsep.roleOfSetup v))) = true := by
+  unfold RtcModel.Jsep.roleOfSetup
   by_cases h1 : v = "active".toList
   · subst h1; decide
   · by_cases h2 : v = "passive".toList
@@ -292,6 +296,44 @@ theorem answer_extmap_ok (c : Cfg) (t : TrxView) (remote : List Media) (hasLocal
       simp [attr] at hk
     · cases h
 
+/-- **answer_extmap_ids_offered** — in terms of the property's `extIds`: every extension id of an
+answer section is an extension id of the remote section `find(|s| s.mid == mid)` selects. All inputs. -/
+theorem answer_extmap_ids_offered (c : Cfg) (t : TrxView) (remote : List Media) (hasLocal : Bool) (role : Option Bool)
+    (mid : Str) (mux : Bool) :
+    ∀ i ∈ extIds (answerSection c t remote hasLocal role mid mux),
+      ∃ r, remote.find? (fun s => s.mid = mid) = some r ∧ i ∈ extIds r := by
+  intro i hi
+  unfold extIds at hi
+  obtain ⟨v, hv, hhead⟩ := List.mem_filterMap.mp hi
+  obtain ⟨a, ha, hk, hval⟩ := (mem_attrVals _ "extmap" v).mp hv
+  obtain ⟨r, id, uri, v', hr, hform, hmem, hid⟩ := answer_extmap_ok c t remote hasLocal role mid mux a ha hk
+  have hidtok : IsTok id := by
+    apply splitWs_tokens v'
+    cases hs : splitWs v' with
+    | nil => simp [hs] at hid
+    | cons x xs => simp only [hs, List.head?_cons, Option.some.injEq] at hid; subst hid; simp
+  have hv_eq : v = id ++ sp ++ uri := by
+    rw [hform] at hval
+    simp only [extAttr, attr, Option.some.injEq] at hval
+    exact hval.symm
+  have : i = id := by
+    rw [hv_eq, extAttr_id id uri hidtok] at hhead
+    injection hhead with e; exact e.symm
+  subst this
+  refine ⟨r, hr, ?_⟩
+  unfold extIds
+  exact List.mem_filterMap.mpr ⟨v', (mem_attrVals _ "extmap" v').mpr ⟨_, hmem, rfl, rfl⟩, hid⟩
+
+/-- **answer_extmap_nodup** — no duplicate extension ids: when the remote section that is consulted is
+well-formed for the echo (`ExtWF`: its own ids pairwise distinct, no `a=extmap` line mentioning two of
+the four URIs the answerer looks for — decidable), the extension ids of the answer section are pairwise
+distinct. Together with `answer_extmap_ids_offered` this is the property's extension clause relative to
+the consulted section. -/
+theorem answer_extmap_nodup (c : Cfg) (t : TrxView) (remote : List Media) (hasLocal : Bool) (role : Option Bool)
+    (mid : Str) (mux : Bool) (r : Media) (hr : remote.find? (fun s => s.mid = mid) = some r) (hwf : ExtWF r) :
+    (extIds (answerSection c t remote hasLocal role mid mux)).Nodup :=
+  extIds_answerSection_nodup c t remote hasLocal role mid mux r hr hwf
+
 /-! ### witnesses: the full statement is false -/
 
 def cfgDefault : Cfg := { mode := .webrtc, legacySip := false, muxRequire := true, audio := [], video := [], sctpPort := 5000 }
@@ -385,6 +427,9 @@ def vp8RtxSec : Media :=
 
 def bundleOffer : Desc := mkOffer [attr "group" "BUNDLE 0 1".toList] [opusSec, vp8RtxSec]
 
+/-- the hypothesis of `answer_extmap_nodup` holds for ordinary offered sections -/
+example : ExtWF vp8RtxSec ∧ ExtWF opusSec := by decide
+
 /-- non-vacuity of the positive theorems: a WebRTC offer (BUNDLE, opus + VP8 with RTX, extensions)
 whose codecs the default configuration also has gets a valid answer in the model. -/
 example :
@@ -457,6 +502,14 @@ def DirSynced (ts : List TrxView) (offer : Desc) : Prop :=
 def KindSynced (ts : List TrxView) (offer : Desc) : Prop :=
   ∀ t ∈ ts, ∀ o ∈ offer.media, Matches o t → t.kind = o.kind
 
+/-- since the round-2 `fix:` ("create_answer matches a transceiver by MID only if it is of the section's
+kind") the matching itself guarantees the kind — `KindSynced` is no longer a hypothesis of any theorem.
+Before it, a transceiver carrying a locally assigned mid equal to an offered mid was matched whatever its
+kind: `legacy_mid_match_ignores_kind`. -/
+theorem kind_synced (ts : List TrxView) (offer : Desc) : KindSynced ts offer := by
+  intro t _ o _ hm
+  rcases hm with ⟨_, _, hk⟩ | ⟨_, hk⟩ <;> exact hk
+
 /-- **answer_direction_ok_desc** — along the whole answer: every answered direction is compatible with
 the offered one, when the matched transceivers carry the offered directions (`DirSynced`). -/
 theorem answer_direction_ok_desc (c : Cfg) (ts : List TrxView) (nextMid : Nat) (hasLocal : Bool) (role : Option Bool)
@@ -483,13 +536,13 @@ theorem answer_direction_ok_desc (c : Cfg) (ts : List TrxView) (nextMid : Nat) (
   · rw [he, zipAll_map_right secDirOk (fun s => { s with mid := [] }) (fun o s => rfl)]; exact hbl
 
 /-- **answer_aligned_partial** — kinds and mids of the answer are the offer's, section by section, when
-every offered section carries a mid, matched transceivers are of the offered kind (`KindSynced`) and
+every offered section carries a mid and
 the mids are not cleared (Standard mode and: BUNDLE offered or a single section). The two excluded
 situations are exactly the witnesses `answer_clears_mids_without_bundle` /
 `legacy_sip_answer_drops_offered_mids`. -/
 theorem answer_aligned_partial (c : Cfg) (ts : List TrxView) (nextMid : Nat) (hasLocal : Bool) (role : Option Bool)
     (offer : Desc) (a : Answer) (h : answer c ts nextMid hasLocal role (some offer) = .ok a)
-    (hmids : ∀ o ∈ offer.media, o.mid ≠ []) (hk : KindSynced ts offer)
+    (hmids : ∀ o ∈ offer.media, o.mid ≠ [])
     (hnc : c.legacySip = false ∧ (offeredBundle offer.session.attrs = true ∨ offer.media.length ≤ 1)) :
     zipAll secAligned offer.media a.sections = true := by
   obtain ⟨order, ho, _, hkeep⟩ := answer_sections c ts nextMid hasLocal role offer a h
@@ -502,10 +555,10 @@ theorem answer_aligned_partial (c : Cfg) (ts : List TrxView) (nextMid : Nat) (ha
   refine hal.imp ?_
   intro o p ho' _ ⟨_, t', hget', hm⟩ t mid hget hmid
   rw [hget'] at hget; injection hget with e; subst e
-  have hkind := hk t' (mem_of_getElem_some hget') o ho' hm
+  have hkind := kind_synced ts offer t' (mem_of_getElem_some hget') o ho' hm
   have hmid' : mid = o.mid := by
     rcases hm with ⟨_, htm⟩ | ⟨hem, _⟩
-    · exact hmid _ htm
+    · exact hmid _ htm.1
     · exact absurd hem (hmids o ho')
   unfold secAligned
   simp [answerSection, hkind, hmid']
@@ -514,12 +567,12 @@ theorem answer_aligned_partial (c : Cfg) (ts : List TrxView) (nextMid : Nat) (ha
 extension ids, together, under the named hypotheses: count, kinds, mids, rtcp-mux, direction. -/
 theorem answer_valid_core_partial (c : Cfg) (ts : List TrxView) (nextMid : Nat) (hasLocal : Bool) (role : Option Bool)
     (offer : Desc) (a : Answer) (h : answer c ts nextMid hasLocal role (some offer) = .ok a)
-    (hmids : ∀ o ∈ offer.media, o.mid ≠ []) (hk : KindSynced ts offer) (hd : DirSynced ts offer)
+    (hmids : ∀ o ∈ offer.media, o.mid ≠ []) (hd : DirSynced ts offer)
     (hnc : c.legacySip = false ∧ (offeredBundle offer.session.attrs = true ∨ offer.media.length ≤ 1)) :
     a.sections.length = offer.media.length ∧ zipAll secAligned offer.media a.sections = true ∧
     zipAll secMuxOk offer.media a.sections = true ∧ zipAll secDirOk offer.media a.sections = true :=
   ⟨answer_count c ts nextMid hasLocal role offer a h,
-   answer_aligned_partial c ts nextMid hasLocal role offer a h hmids hk hnc,
+   answer_aligned_partial c ts nextMid hasLocal role offer a h hmids hnc,
    answer_mux_ok_desc c ts nextMid hasLocal role offer a h,
    answer_direction_ok_desc c ts nextMid hasLocal role offer a h hd⟩
 
@@ -571,39 +624,148 @@ example : (codecPart cfgOpusPcmu .audio [pcmaOpus109] true "0".toList).1 = ["109
 
 /-! ### the combined partial theorem -/
 
-/-- what the local configuration selects for the offered section `o` (formats, codec / RTX / extension
-attributes): the answer section built for `o`, seen as a section -/
-def selection (c : Cfg) (offer : Desc) (hasLocal : Bool) (role : Option Bool) (o : Media) : Media :=
-  { o with formats := (capabilities c o.kind offer.media hasLocal role o.mid (secHasMux o)).1,
-           attrs := (capabilities c o.kind offer.media hasLocal role o.mid (secHasMux o)).2 }
+/-- the offered sections carry pairwise different mids -/
+def DistinctMids (offer : Desc) : Prop := offer.media.Pairwise (fun x y => x.mid ≠ y.mid)
+
+/-- with pairwise different mids, looking a section up by its own mid finds that section — the
+consulted section of `answer_extmap_ok` / `answer_rtx_ok` is then the answered one -/
+theorem find_own_mid (l : List Media) (hd : l.Pairwise (fun x y => x.mid ≠ y.mid)) (o : Media) (ho : o ∈ l) :
+    l.find? (fun s => s.mid = o.mid) = some o := by
+  induction l with
+  | nil => cases ho
+  | cons x rest ih =>
+    obtain ⟨hx, hrest⟩ := List.pairwise_cons.mp hd
+    rcases List.mem_cons.mp ho with rfl | ho'
+    · simp
+    · have hne : x.mid ≠ o.mid := hx o ho'
+      have hdec : decide (x.mid = o.mid) = false := decide_eq_false hne
+      simp only [List.find?_cons, hdec]
+      exact ih hrest ho'
+
+/-- the `a=fmtp` lines of an answer section are those of its codec part (header extensions, `a=setup` and
+the rtcp-mux filter do not touch them) -/
+theorem fmtp_answerSection (c : Cfg) (t : TrxView) (remote : List Media) (hasLocal : Bool) (role : Option Bool)
+    (mid : Str) (mux : Bool) :
+    attrVals (answerSection c t remote hasLocal role mid mux).attrs "fmtp" =
+      attrVals (codecPart c t.kind remote hasLocal mid).2 "fmtp" := by
+  have hne : "fmtp".toList ≠ "rtcp-mux".toList := by decide
+  have hall : attrVals ((codecPart c t.kind remote hasLocal mid).2 ++ extmapAttrs c t.kind remote mid ++ setupAttrs c role) "fmtp" =
+      attrVals (codecPart c t.kind remote hasLocal mid).2 "fmtp" := by
+    rw [attrVals_append, attrVals_append]
+    rw [attrVals_nil_of_keys (extmapAttrs c t.kind remote mid) "fmtp"
+      (fun a ha => by rw [extmapAttrs_key c t.kind remote mid a ha]; decide)]
+    rw [attrVals_nil_of_keys (setupAttrs c role) "fmtp" (fun a ha => by
+      unfold setupAttrs at ha
+      split at ha
+      · simp only [List.mem_singleton] at ha; subst ha
+        show "setup".toList ≠ "fmtp".toList
+        decide
+      · cases ha)]
+    simp
+  simp only [answerSection, capabilities]
+  cases mux with
+  | true => simpa using hall
+  | false =>
+    simp only [Bool.false_eq_true, if_false]
+    rw [attrVals_filter_other _ "fmtp" "rtcp-mux" hne]
+    exact hall
+
+theorem aptMap_answerSection (c : Cfg) (t : TrxView) (remote : List Media) (hasLocal : Bool) (role : Option Bool)
+    (mid : Str) (mux : Bool) :
+    aptMap (answerSection c t remote hasLocal role mid mux).attrs = aptMap (codecPart c t.kind remote hasLocal mid).2 := by
+  unfold aptMap
+  rw [fmtp_answerSection]
+
+/-- **answer_rtx_ok_distinct** — the property's RTX clause for the ANSWERED section: when the offered
+sections carry pairwise different mids, every `apt=` association of the video answer section built for
+the offered section `o` is an association `o` itself offered. -/
+theorem answer_rtx_ok_distinct (c : Cfg) (t : TrxView) (offer : Desc) (hasLocal : Bool) (role : Option Bool) (mux : Bool)
+    (hd : DistinctMids offer) (o : Media) (ho : o ∈ offer.media) (hk : t.kind = .video) :
+    secRtxOk o (answerSection c t offer.media hasLocal role o.mid mux) = true := by
+  unfold secRtxOk
+  rw [aptMap_answerSection, List.all_eq_true]
+  intro q hq
+  rw [hk] at hq
+  obtain ⟨r, hr, hq'⟩ := answer_rtx_ok c offer.media hasLocal o.mid q hq
+  unfold rtxSource at hr
+  rw [find_own_mid offer.media hd o ho] at hr
+  injection hr with hr
+  subst hr
+  simpa using hq'
+
+/-- **answer_ext_ok_distinct** — the property's extension clause for the ANSWERED section ("only offered
+ids, no duplicate ids"): pairwise different mids and an offered section whose own extension lines are
+well formed for the echo (`ExtWF`: its ids pairwise distinct, no line naming two of the probed URIs). -/
+theorem answer_ext_ok_distinct (c : Cfg) (t : TrxView) (offer : Desc) (hasLocal : Bool) (role : Option Bool) (mux : Bool)
+    (hd : DistinctMids offer) (o : Media) (ho : o ∈ offer.media) (hwf : ExtWF o) :
+    secExtOk o (answerSection c t offer.media hasLocal role o.mid mux) = true := by
+  have hf := find_own_mid offer.media hd o ho
+  unfold secExtOk
+  rw [Bool.and_eq_true]
+  refine ⟨?_, ?_⟩
+  · rw [List.all_eq_true]
+    intro i hi
+    obtain ⟨r, hr, hir⟩ := answer_extmap_ids_offered c t offer.media hasLocal role o.mid mux i hi
+    rw [hf] at hr; injection hr with hr; subst hr
+    simpa using hir
+  · exact decide_eq_true (answer_extmap_nodup c t offer.media hasLocal role o.mid mux o hf hwf)
+
+/-- what the local configuration selects for the offered section `o`: the formats of the answer section
+built for `o` -/
+def selectedFormats (c : Cfg) (offer : Desc) (hasLocal : Bool) (o : Media) : List Str :=
+  (codecPart c o.kind offer.media hasLocal o.mid).1
 
 /-- **the missing feature, as a hypothesis**: for every offered section the locally selected payload
-types, RTX associations and header-extension ids lie within what that section offered (and the ids are
-pairwise distinct). Decidable; false e.g. for the PCMU-only offer of `first_answer_ignores_offer_codecs`. -/
-def SelectionWithinOffer (c : Cfg) (offer : Desc) (hasLocal : Bool) (role : Option Bool) : Prop :=
-  ∀ o ∈ offer.media, secPtsOk o (selection c offer hasLocal role o) = true ∧
-    secRtxOk o (selection c offer hasLocal role o) = true ∧ secExtOk o (selection c offer hasLocal role o) = true
+types lie within what that section offered. Decidable; false e.g. for the PCMU-only offer of
+`first_answer_ignores_offer_codecs`. It is the ONLY hypothesis of `answer_valid_partial` that restates a
+clause of the conclusion; the code ensures it for audio when a common codec exists
+(`answer_audio_reinvite_pts_offered`) and never for video. -/
+def PtsWithinOffer (c : Cfg) (offer : Desc) (hasLocal : Bool) : Prop :=
+  ∀ o ∈ offer.media, ∀ f ∈ selectedFormats c offer hasLocal o, f ∈ o.formats
 
-/-- the cached DTLS role is one every offered section can accept -/
-def RoleFits (c : Cfg) (role : Option Bool) (offer : Desc) : Prop :=
-  c.mode = .webrtc → ∀ o ∈ offer.media, setupCompatible (setupOf o) (setupValue role) = true
+/-- the codec part of a non-video section carries no `apt=` parameter (a configured audio `fmtp` such as
+`"apt=96"` would be read as an RTX association by the peer). Decidable; a condition on the configuration
+and, for the echoed `telephone-event` fmtp, on the offer. -/
+def NonVideoNoApt (c : Cfg) (offer : Desc) (hasLocal : Bool) : Prop :=
+  ∀ o ∈ offer.media, o.kind ≠ .video → aptMap (codecPart c o.kind offer.media hasLocal o.mid).2 = []
 
-/-- the offer's BUNDLE group (if any) lists the mids of its sections -/
+/-- the DTLS role the connection holds was derived (`RtcModel.Jsep.roleOfSetup`, the function the C09
+driver compares with `set_remote_description`) from the `a=setup` value `v` that every section of THIS
+offer carries, at media or session level. Fails for re-offers that change the role, for offers whose
+sections differ, and for session-level-only `a=setup` (the derivation reads media-level attributes):
+witnesses `sticky_role_answers_offerers_own_role`, `session_level_setup_is_not_read`. -/
+def RoleDerived (c : Cfg) (role : Option Bool) (offer : Desc) : Prop :=
+  c.mode = .webrtc → ∃ v, role = some (RtcModel.Jsep.roleOfSetup v) ∧
+    ∀ o ∈ offer.media, offeredSetup offer.session.attrs o = some v
+
+/-- the offer's BUNDLE group (if any) lists the mid of every section. A condition on the OFFER; when it
+fails the answer still bundles every section — witness `partial_bundle_group_answered_in_full`. -/
 def GroupListsMids (offer : Desc) : Prop :=
   ∀ og, offerGroup offer.session.attrs = some og → ∀ o ∈ offer.media, o.mid ∈ groupMids og
 
-/-- **answer_valid_partial** — `validAnswer offer a` for every answer the model produces, under the named
-hypotheses: every offered section carries a (white-space free, non-empty) mid; the matched transceivers
-have the offered kinds and directions (`KindSynced`, `DirSynced` — established by a first
-`set_remote_description`, C09 `first_offer_syncs_transceivers`); Standard mode with BUNDLE offered or a
-single section (mids not cleared); the cached role fits (`RoleFits`, cf. `answer_setup_complements`);
-the offer's group lists its mids; and `SelectionWithinOffer` — the part the code does NOT ensure. -/
+theorem setupValue_side (role : Option Bool) :
+    setupCompatible none (setupValue role) = true := by
+  cases role with
+  | none => decide
+  | some b => cases b <;> decide
+
+/-- **answer_valid_partial** — `validAnswer offer a` for every answer the model produces, under named
+hypotheses none of which (except `PtsWithinOffer`) restates a clause of the conclusion:
+every offered section carries a white-space free, non-empty mid and the mids are pairwise different;
+the offered extension lines are well formed (`ExtWF`); the matched transceivers have the offered
+directions (`DirSynced` — what a first `set_remote_description` establishes, C09
+`first_offer_syncs_transceivers`); Standard mode with BUNDLE offered or a single section (mids not
+cleared); the role was derived from this offer's uniform `a=setup` (`RoleDerived`); the offer's group
+lists its mids; non-video codec parts carry no `apt=`; and `PtsWithinOffer` — the part the code does NOT
+ensure. The RTX, extension-id (incl. no duplicates) and setup clauses are DERIVED here
+(`answer_rtx_ok_distinct`, `answer_ext_ok_distinct`, `answer_setup_complements`). -/
 theorem answer_valid_partial (c : Cfg) (ts : List TrxView) (nextMid : Nat) (hasLocal : Bool) (role : Option Bool)
     (offer : Desc) (a : Answer) (h : answer c ts nextMid hasLocal role (some offer) = .ok a)
-    (hmids : ∀ o ∈ offer.media, IsTok o.mid) (hk : KindSynced ts offer) (hd : DirSynced ts offer)
+    (hmids : ∀ o ∈ offer.media, IsTok o.mid) (hdist : DistinctMids offer) (hext : ∀ o ∈ offer.media, ExtWF o)
+    (hd : DirSynced ts offer)
     (hnc : c.legacySip = false ∧ (offeredBundle offer.session.attrs = true ∨ offer.media.length ≤ 1))
-    (hrole : RoleFits c role offer) (hgrp : GroupListsMids offer)
-    (hsel : SelectionWithinOffer c offer hasLocal role) :
+    (hrole : RoleDerived c role offer) (hgrp : GroupListsMids offer) (hapt : NonVideoNoApt c offer hasLocal)
+    (hsel : PtsWithinOffer c offer hasLocal) :
     validAnswer offer a = true := by
   have hne : ∀ o ∈ offer.media, o.mid ≠ [] := fun o ho => (hmids o ho).1
   obtain ⟨order, ho, _, hkeep⟩ := answer_sections c ts nextMid hasLocal role offer a h
@@ -612,35 +774,63 @@ theorem answer_valid_partial (c : Cfg) (ts : List TrxView) (nextMid : Nat) (hasL
   subst ht
   have hv := Answer.answerOrder_valid _ _ _ _ _ (by intro p hp; cases hp) ho
   have hsecs := hkeep hnc
+  -- the setup an answer section carries fits the offered one (media or session level)
+  have hsetup : ∀ o ∈ offer.media, ∀ (t : TrxView) (mux : Bool),
+      secSetupOk o (answerSection c t offer.media hasLocal role o.mid mux) = true ∧
+      secSetupOkS offer.session.attrs o (answerSection c t offer.media hasLocal role o.mid mux) = true := by
+    intro o ho' t mux
+    unfold secSetupOk secSetupOkS
+    rw [setupOf_answerSection]
+    by_cases hw : c.mode = .webrtc
+    · rw [if_pos hw]
+      obtain ⟨v, hr, hall⟩ := hrole hw
+      have hov := hall o ho'
+      show setupCompatible (setupOf o) (setupValue role) = true ∧
+        setupCompatible (offeredSetup offer.session.attrs o) (setupValue role) = true
+      rw [hov, hr]
+      refine ⟨?_, answer_setup_complements v⟩
+      unfold offeredSetup at hov
+      cases hs : setupOf o with
+      | none => exact setupValue_side _
+      | some v' =>
+        rw [hs] at hov
+        simp only [Option.some.injEq] at hov
+        subst hov
+        exact answer_setup_complements v'
+    · rw [if_neg hw]
+      exact ⟨rfl, rfl⟩
   -- all per-section clauses at once
-  have hall : zipAll secValid offer.media a.sections = true := by
+  have hall : zipAll (fun o s => secValid o s && secSetupOkS offer.session.attrs o s) offer.media a.sections = true := by
     rw [hsecs]
-    apply zipAll_buildList _ _ _ _ _ secValid _ _ _ hv
+    apply zipAll_buildList _ _ _ _ _ (fun o s => secValid o s && secSetupOkS offer.session.attrs o s) _ _ _ hv
     refine hal.imp ?_
     intro o p ho' _ ⟨hflag, t', hget', hm⟩ t mid hget hmid
     rw [hget'] at hget; injection hget with e; subst e
-    have hkind := hk t' (mem_of_getElem_some hget') o ho' hm
+    have hkind := kind_synced ts offer t' (mem_of_getElem_some hget') o ho' hm
     have hdir := hd t' (mem_of_getElem_some hget') o ho' hm
     have hmid' : mid = o.mid := by
       rcases hm with ⟨_, htm⟩ | ⟨hem, _⟩
-      · exact hmid _ htm
+      · exact hmid _ htm.1
       · exact absurd hem (hne o ho')
     subst hmid'
-    obtain ⟨hpts, hrtx, hext⟩ := hsel o ho'
-    have hcap : capabilities c t'.kind offer.media hasLocal role o.mid p.2 =
-        capabilities c o.kind offer.media hasLocal role o.mid (secHasMux o) := by rw [hkind, hflag]
     have e1 : secAligned o (answerSection c t' offer.media hasLocal role o.mid p.2) = true := by
       simp [secAligned, answerSection, hkind]
     have e2 : secPtsOk o (answerSection c t' offer.media hasLocal role o.mid p.2) = true := by
-      have : (answerSection c t' offer.media hasLocal role o.mid p.2).formats = (selection c offer hasLocal role o).formats := by
-        simp only [answerSection, selection, hcap]
-      unfold secPtsOk at hpts ⊢; rw [this]; exact hpts
-    have hattrs : (answerSection c t' offer.media hasLocal role o.mid p.2).attrs = (selection c offer hasLocal role o).attrs := by
-      simp only [answerSection, selection, hcap]
+      unfold secPtsOk
+      rw [List.all_eq_true]
+      intro f hf
+      have : f ∈ selectedFormats c offer hasLocal o := by
+        simp only [answerSection, capabilities, hkind] at hf
+        exact hf
+      simpa using hsel o ho' f this
     have e3 : secRtxOk o (answerSection c t' offer.media hasLocal role o.mid p.2) = true := by
-      unfold secRtxOk at hrtx ⊢; rw [hattrs]; exact hrtx
-    have e4 : secExtOk o (answerSection c t' offer.media hasLocal role o.mid p.2) = true := by
-      unfold secExtOk extIds at hext ⊢; rw [hattrs]; exact hext
+      by_cases hvid : t'.kind = .video
+      · exact answer_rtx_ok_distinct c t' offer hasLocal role p.2 hdist o ho' hvid
+      · unfold secRtxOk
+        rw [aptMap_answerSection, hkind, hapt o ho' (by rw [← hkind]; exact hvid)]
+        rfl
+    have e4 : secExtOk o (answerSection c t' offer.media hasLocal role o.mid p.2) = true :=
+      answer_ext_ok_distinct c t' offer hasLocal role p.2 hdist o ho' (hext o ho')
     have e5 : secMuxOk o (answerSection c t' offer.media hasLocal role o.mid p.2) = true := by
       unfold secMuxOk
       cases hp : p.2 with
@@ -654,16 +844,13 @@ theorem answer_valid_partial (c : Cfg) (ts : List TrxView) (nextMid : Nat) (hasL
       simp only [answerSection]
       rw [← hdir]
       exact answer_direction_ok t' offer.media o.mid
-    have e7 : secSetupOk o (answerSection c t' offer.media hasLocal role o.mid p.2) = true := by
-      unfold secSetupOk
-      rw [setupOf_answerSection]
-      by_cases hw : c.mode = .webrtc
-      · rw [if_pos hw]
-        exact hrole hw o ho'
-      · rw [if_neg hw]
+    obtain ⟨e7, e8⟩ := hsetup o ho' t' p.2
+    show (secValid o _ && secSetupOkS offer.session.attrs o _) = true
     unfold secValid
-    rw [e1, e2, e3, e4, e5, e6, e7]
+    rw [e1, e2, e3, e4, e5, e6, e7, e8]
     rfl
+  have hall1 : zipAll secValid offer.media a.sections = true := zipAll_and_left _ _ _ _ hall
+  have hall2 : zipAll (secSetupOkS offer.session.attrs) offer.media a.sections = true := zipAll_and_right _ _ _ _ hall
   -- BUNDLE members
   have hb : bundleOk offer.session.attrs a = true := by
     unfold bundleOk
@@ -677,7 +864,7 @@ theorem answer_valid_partial (c : Cfg) (ts : List TrxView) (nextMid : Nat) (hasL
       dsimp only
       -- the group value lists the answer's mids = the offer's mids
       have halign : zipAll secAligned offer.media a.sections = true :=
-        answer_aligned_partial c ts nextMid hasLocal role offer a h hne hk hnc
+        answer_aligned_partial c ts nextMid hasLocal role offer a h hne hnc
       have hmidsEq := zipAll_aligned_mids _ _ halign
       have hgv : g = "BUNDLE ".toList ++ join sp (a.sections.map (·.mid)) ∧ a.sections ≠ [] := by
         unfold answer at h
@@ -711,18 +898,27 @@ theorem answer_valid_partial (c : Cfg) (ts : List TrxView) (nextMid : Nat) (hasL
       have := hgrp og hog o ho'
       simpa using this
   unfold validAnswer
-  rw [hall, hb]
+  rw [hall1, hb, hall2]
   rfl
 
 /-- the hypotheses of `answer_valid_partial` are satisfiable by a non-trivial instance, and its
 conclusion agrees with evaluating `validAnswer` there -/
-example : SelectionWithinOffer cfgDefault bundleOffer false (some false) ∧ RoleFits cfgDefault (some false) bundleOffer ∧
+example : PtsWithinOffer cfgDefault bundleOffer false ∧ NonVideoNoApt cfgDefault bundleOffer false ∧
+    RoleDerived cfgDefault (some false) bundleOffer ∧ DistinctMids bundleOffer ∧ (∀ o ∈ bundleOffer.media, ExtWF o) ∧
     GroupListsMids bundleOffer ∧ (∀ o ∈ bundleOffer.media, IsTok o.mid) := by
-  refine ⟨?_, ?_, ?_, by decide⟩
+  refine ⟨?_, ?_, ?_, by unfold DistinctMids; decide, ?_, ?_, by decide⟩
   · intro o ho
     simp only [bundleOffer, mkOffer, List.mem_cons, List.mem_nil_iff, or_false] at ho
     rcases ho with rfl | rfl <;> decide
-  · intro _ o ho
+  · intro o ho
+    simp only [bundleOffer, mkOffer, List.mem_cons, List.mem_nil_iff, or_false] at ho
+    rcases ho with rfl | rfl <;> decide
+  · intro _
+    refine ⟨"actpass".toList, by decide, ?_⟩
+    intro o ho
+    simp only [bundleOffer, mkOffer, List.mem_cons, List.mem_nil_iff, or_false] at ho
+    rcases ho with rfl | rfl <;> decide
+  · intro o ho
     simp only [bundleOffer, mkOffer, List.mem_cons, List.mem_nil_iff, or_false] at ho
     rcases ho with rfl | rfl <;> decide
   · intro og hog o ho
@@ -733,15 +929,86 @@ example : SelectionWithinOffer cfgDefault bundleOffer false (some false) ∧ Rol
     simp only [bundleOffer, mkOffer, List.mem_cons, List.mem_nil_iff, or_false] at ho
     rcases ho with rfl | rfl <;> decide
 
+/-- **partial_bundle_group_answered_in_full** — witness for the BUNDLE-membership clause: the offer groups
+only mid 0 (`a=group:BUNDLE 0`, sections 0 and 1); the answer's group lists both (`BUNDLE 0 1`), i.e. it
+bundles a section the offer did not propose to bundle. Replayed on the implementation (known finding
+`ans:bundle:section-outside-offered-group-bundled`). -/
+theorem partial_bundle_group_answered_in_full :
+    let offer := mkOffer [attr "group" "BUNDLE 0".toList] [opusSec, vp8RtxSec]
+    ∃ a, answer cfgDefault [trx .audio "0", trx .video "1"] 2 false (some false) (some offer) = .ok a ∧
+      a.group = some "BUNDLE 0 1".toList ∧ bundleOk offer.session.attrs a = false ∧ ¬ GroupListsMids offer := by
+  refine ⟨_, rfl, by decide, by decide, ?_⟩
+  intro h
+  have := h "BUNDLE 0".toList (by decide) vp8RtxSec (by simp [mkOffer])
+  revert this; decide
+
+/-- **session_level_setup_is_not_read** — witness for the setup clause: an offer whose only `a=setup:active`
+is at session level. The role derivation reads media-level attributes only, finds none, the role stays
+unset and the answer says `a=setup:active` too — both ends active. (Known finding
+`ans:setup:active-answered-active:session-level-setup-not-read`; the derived role `none` is what the C09
+model `RtcModel.Jsep.deriveRole` gives for sections without `a=setup`.) -/
+theorem session_level_setup_is_not_read :
+    let sec : Media := { pcmuOnly "0" with attrs := [flag "rtcp-mux", attr "rtpmap" "0 PCMU/8000".toList] }
+    let offer := mkOffer [attr "setup" "active".toList] [sec]
+    ∃ a, answer cfgDefault [trx .audio "0"] 1 false none (some offer) = .ok a ∧
+      zipAll (secSetupOkS offer.session.attrs) offer.media a.sections = false ∧ validAnswer offer a = false := by
+  refine ⟨_, rfl, by decide, by decide⟩
+
+/-- **sections_with_differing_setup_get_one_role** — witness: sections offering `passive` and `active`; one
+DTLS role (from the FIRST `a=setup`) answers both, so the second section is answered `active` to `active`. -/
+theorem sections_with_differing_setup_get_one_role :
+    let s0 : Media := { pcmuOnly "0" with attrs := [flag "rtcp-mux", attr "rtpmap" "0 PCMU/8000".toList, attr "setup" "passive".toList] }
+    let s1 : Media := { pcmuOnly "1" with attrs := [flag "rtcp-mux", attr "rtpmap" "0 PCMU/8000".toList, attr "setup" "active".toList] }
+    let offer := mkOffer [attr "group" "BUNDLE 0 1".toList] [s0, s1]
+    ∃ a, answer cfgDefault [trx .audio "0", trx .audio "1"] 2 false (some (RtcModel.Jsep.roleOfSetup "passive".toList))
+        (some offer) = .ok a ∧ zipAll secSetupOk offer.media a.sections = false := by
+  refine ⟨_, rfl, by decide⟩
+
+/-- **offered_payload_type_rebound** — reported separately from `validAnswer` (bit `cb` of the `valid`
+stream): the offer binds payload type 96 to H264, the default configuration answers `96 VP8/90000`. Every
+answered NUMBER was offered (`secPtsOk`), the codec behind it was not (`secBindOk`). -/
+theorem offered_payload_type_rebound :
+    let o : Media := { vp8Sec "0" [] with attrs := [flag "rtcp-mux", attr "rtpmap" "96 H264/90000".toList] }
+    ∃ a, answer cfgDefault [trx .video "0"] 1 false (some false) (some (mkOffer [] [o])) = .ok a ∧
+      zipAll secPtsOk [o] a.sections = true ∧ zipAll secBindOk [o] a.sections = false := by
+  refine ⟨_, rfl, by decide, by decide⟩
+
+/-- **Witness about superseded code** (before the round-2 `fix:` "create_answer matches a transceiver by MID
+only if it is of the section's kind"): a data-channel transceiver that carries the locally assigned mid `0`
+was chosen for the offered VIDEO section with mid `0`; the current matching picks the video transceiver. -/
+theorem legacy_mid_match_ignores_kind :
+    Legacy.answerOrder [trx .application "0", trx .video "0"] [vp8Sec "0" []] [] [] = some [(0, true)] ∧
+    answerOrder [trx .application "0", trx .video "0"] [vp8Sec "0" []] [] [] = some [(1, true)] := by decide
+
+/-- **answer_kinds_ok** — the kinds of the answer are the offer's, section by section, for EVERY offer
+(with or without mids, any compatibility mode, any connection state) — FULL since the round-2 fix: the
+matching is by kind in both of its stages (`kind_synced`). -/
+theorem answer_kinds_ok (c : Cfg) (ts : List TrxView) (nextMid : Nat) (hasLocal : Bool) (role : Option Bool)
+    (offer : Desc) (a : Answer) (h : answer c ts nextMid hasLocal role (some offer) = .ok a)
+    :
+    zipAll (fun o s => o.kind = s.kind) offer.media a.sections = true := by
+  obtain ⟨order, ho, hsec, _⟩ := answer_sections c ts nextMid hasLocal role offer a h
+  obtain ⟨tail, ht, hal⟩ := answerOrder_matches ts offer.media [] [] order ho
+  simp only [List.reverse_nil, List.nil_append] at ht
+  subst ht
+  have hv := Answer.answerOrder_valid _ _ _ _ _ (by intro p hp; cases hp) ho
+  have hbl : zipAll (fun o s => o.kind = s.kind) offer.media (buildList c ts offer.media hasLocal role order nextMid) = true := by
+    apply zipAll_buildList _ _ _ _ _ (fun o s => o.kind = s.kind) _ _ _ hv
+    refine hal.imp ?_
+    intro o p ho' _ ⟨_, t', hget', hm⟩ t mid hget _
+    rw [hget'] at hget; injection hget with e; subst e
+    have hkind := kind_synced ts offer t' (mem_of_getElem_some hget') o ho' hm
+    simp [answerSection, hkind]
+  rcases hsec with he | he
+  · rw [he]; exact hbl
+  · rw [he, zipAll_map_right (fun o s => decide (o.kind = s.kind)) (fun s => { s with mid := [] }) (fun o s => rfl)]; exact hbl
+
 /-! ### SDP text -/
 
 /-- **attr_text_roundtrip** (character level) — `Attribute::from_line ∘ write_line` is the identity for
 every attribute whose key has no `:` (values are unconstrained, `None` and `Some("")` stay distinct). -/
 theorem attr_text_roundtrip (a : Attr) (hk : ':' ∉ a.key) : Attr.fromLine a.text = a :=
   Attr.fromLine_text a hk
-
-/-- **norm_idem** — the printer's stable partition is idempotent. -/
-theorem norm_idem (d : Desc) : norm (norm d) = norm d := SdpLines.norm_norm d
 
 /-- **parse_print** (line level) — for every well-formed description, parsing what the printer wrote
 yields the description with each section's attributes stably partitioned into transport attributes
@@ -750,7 +1017,7 @@ theorem parse_print (d : Desc) (h : WF d) : parse (print d) = .ok (norm d) := Sd
 
 /-- **parse_print_exact** — a description that came out of `parse ∘ print` round-trips exactly. -/
 theorem parse_print_exact (d : Desc) (h : WF d) : parse (print (norm d)) = .ok (norm d) := by
-  rw [parse_print (norm d) (SdpLines.wf_norm d h), norm_idem]
+  rw [parse_print (norm d) (SdpLines.wf_norm d h), SdpLines.norm_norm]
 
 /-- **decimal_roundtrip** (character level) — `n.to_string().parse::<uN>() == Ok(n)` for `n < 2^N`
 (`bound = 2^N`), the fact behind every numeric field. -/
@@ -788,8 +1055,8 @@ theorem parse_text_print (d : Desc) (h : WF' d) (hl : ∀ l ∈ print d, LineOK 
   rw [SdpLines.parseText_printText _ hl]
   exact parse_print_structural d h
 
-/-- non-vacuity: a two-section description (BUNDLE, ICE / DTLS attributes, codecs) is well-formed, all its
-printed lines are `LineOK`, and it is NOT in normal form (the printer does reorder it). -/
+/-- a two-section description (BUNDLE, ICE / DTLS attributes, codecs) in the order browsers write it: well-formed,
+all its printed lines `LineOK`, and NOT in the printer's order — the witness of `round_trip_reorders_attributes`. -/
 def sampleDesc : Desc :=
   { session := { version := 0, origin := ⟨['-'], 4611731400430051336, 2, false, "127.0.0.1".toList⟩, name := ['-'],
                  start := 0, stop := 0, connection := none,
@@ -805,5 +1072,68 @@ def sampleDesc : Desc :=
 example : WF' sampleDesc ∧ (∀ l ∈ print sampleDesc, LineOK l) ∧ norm sampleDesc ≠ sampleDesc ∧
     parseText (printText (print sampleDesc)) = .ok (norm sampleDesc) := by
   refine ⟨by decide, by decide, by decide, parse_text_print _ (by decide) (by decide)⟩
+
+/-
+THE ROUND-TRIP CLAUSE, LITERALLY ("yields the same description").
+FULL STATEMENT (false for the current code):
+  theorem round_trip_full (d : Desc) (h : WF d) : parse (print d) = .ok d
+`SessionDescription: PartialEq` compares the attribute vectors in order and the printer writes every
+section's transport attributes (ice-ufrag, ice-pwd, fingerprint, setup, candidate) ahead of the others, so
+the clause fails for every description that is not already in that order — every WebRTC answer the stack
+produces, every Chrome-order offer it parses. Witness `round_trip_reorders_attributes`; implementation
+replays: known finding `rt:attribute-order:*`. What IS proved:
+  `round_trip_partial`     — exact identity for every WF description in printer order (`norm d = d`),
+  `parse_print`            — for every WF description the result is `norm d`,
+  `norm_only_partitions`   — `norm` changes nothing but the attribute lists, each into the stable partition
+                             transport-first (a permutation),
+  `second_trip_exact`      — whatever the first trip returned round-trips exactly from then on.
+-/
+
+/-- **round_trip_partial** — the literal clause for descriptions already in the printer's attribute order. -/
+theorem round_trip_partial (d : Desc) (h : WF d) (hn : norm d = d) : parse (print d) = .ok d := by
+  have := parse_print d h; rw [hn] at this; exact this
+
+/-- **round_trip_reorders_attributes** — witness that the literal clause is false: `sampleDesc` is well
+formed, and parsing its printed form gives a description that is NOT `sampleDesc` (`ice-ufrag`, `setup`,
+`fingerprint` moved ahead of `rtcp-mux`, `rtpmap`). -/
+theorem round_trip_reorders_attributes : WF sampleDesc ∧ parse (print sampleDesc) ≠ .ok sampleDesc := by
+  have hw : WF sampleDesc := SdpLines.wf_of_structural _ (by decide)
+  refine ⟨hw, ?_⟩
+  rw [parse_print _ hw]
+  intro h; injection h with h; exact absurd h (by decide)
+
+/-- **norm_only_partitions** — what the one reordering is: session part, number of sections and every
+media field except the attribute list are untouched; each attribute list becomes its stable partition
+(transport attributes first), which is a permutation of the original list. -/
+theorem norm_only_partitions (d : Desc) :
+    (norm d).session = d.session ∧ (norm d).media.length = d.media.length ∧
+    ∀ (i : Nat) (m : Media), d.media[i]? = some m → ∃ m', (norm d).media[i]? = some m' ∧
+      m'.kind = m.kind ∧ m'.mid = m.mid ∧ m'.port = m.port ∧ m'.proto = m.proto ∧ m'.formats = m.formats ∧
+      m'.dir = m.dir ∧ m'.connection = m.connection ∧
+      m'.attrs = m.attrs.filter (fun a => isTransportKey a.key) ++ m.attrs.filter (fun a => !isTransportKey a.key) ∧
+      m'.attrs.Perm m.attrs := by
+  refine ⟨rfl, by simp [norm], ?_⟩
+  intro i m hm
+  refine ⟨normMedia m, by simp [norm, hm], rfl, rfl, rfl, rfl, rfl, rfl, rfl, rfl, ?_⟩
+  exact List.filter_append_perm _ _
+
+/-- **second_trip_exact** — for every well-formed `d`: whatever description the first print/parse trip
+returns, printing and parsing THAT one returns it unchanged. -/
+theorem second_trip_exact (d d1 : Desc) (h : WF d) (h1 : parse (print d) = .ok d1) : parse (print d1) = .ok d1 := by
+  rw [parse_print d h] at h1
+  injection h1 with h1
+  subst h1
+  exact parse_print_exact d h
+
+/-- a text the parser accepts whose line type is not one of `v o s t c a m` and contains a `:` -/
+def colonPrefixText : Str := "v=0\r\no=- 1 2 IN IP4 h\r\ns=-\r\nt=0 0\r\nb:x=y\r\n".toList
+
+/-- **parsed_description_need_not_round_trip** — "any description the stack … parsed": parser output is NOT
+always well formed. The unknown line `b:x=y` is kept as a session attribute with key `b:x`; it is printed
+as `a=b:x:y` and read back as key `b`, value `x:y`. (No theorem `parseText t = .ok d → WF d` exists: this
+is its counterexample. Known finding `rt:differs:session:malformed-colon-prefix`.) -/
+theorem parsed_description_need_not_round_trip :
+    ∃ d d2, parseText colonPrefixText = .ok d ∧ ¬ WF d ∧ parseText (printText (print d)) = .ok d2 ∧ d2 ≠ d := by
+  refine ⟨_, _, rfl, by decide, rfl, by decide⟩
 
 end RtcModel.Theorems.C08
